@@ -162,7 +162,12 @@ def call_func(ex, st, fi, fv, args, kw, line):
     finfo = ex.repo.funcs.get(q)
     c = ex.contracts.get(q)
     if c is not None and not ex.contracts.force_inline(q, ex.cur_func):
-        vals = bind_params(ex, st, finfo, args, kw, line, fv.bound)
+        try:
+            vals = bind_params(ex, st, finfo, args, kw, line, fv.bound)
+        except Unsupported:
+            if not c.no_return:
+                raise
+            vals = {k: None for k in c._params({})}
         ex.assumed_calls.add(q)
         yield from c.apply(ex, st, vals, line)
         return
@@ -329,6 +334,9 @@ def dispatch(ex, node, st, fi, fv, args, kw):   # noqa: F811
     if isinstance(fv, tuple) and len(fv) == 2 and fv[0] == '$super':
         yield from fv[1](st, args, kw)
         return
+    if isinstance(fv, tuple) and len(fv) == 3 and fv[0] == '$pymethod':
+        yield st, fv[1].py_method(ex, st, fv[2], args, node.lineno)
+        return
     if isinstance(fv, tuple) and len(fv) == 3 and fv[0] == '$omethod':
         h = ex.contracts.obj_methods[(fv[1].cls, fv[2])]
         yield from h(ex, st, fi, fv[1], args, kw, node.lineno)
@@ -354,19 +362,27 @@ def b_len(ex, st, fi, args, kw, line):
         raise Unsupported('len of %r at %d' % (v, line))
 
 
+def _nums(ex, st, args, line):
+    return [a.py_int(ex, st, line) if hasattr(a, 'py_int') else a
+            for a in args]
+
+
 def b_min(ex, st, fi, args, kw, line):
+    args = _nums(ex, st, args, line)
     if len(args) != 2:
         raise Unsupported('min/max arity')
     yield st, sym.imin(args[0], args[1])
 
 
 def b_max(ex, st, fi, args, kw, line):
+    args = _nums(ex, st, args, line)
     if len(args) != 2:
         raise Unsupported('min/max arity')
     yield st, sym.imax(args[0], args[1])
 
 
 def b_abs(ex, st, fi, args, kw, line):
+    args = _nums(ex, st, args, line)
     yield st, sym.iabs(args[0])
 
 
@@ -376,6 +392,10 @@ def b_type(ex, st, fi, args, kw, line):
 
 def b_isinstance(ex, st, fi, args, kw, line):
     v, c = args
+    if hasattr(v, 'py_isinstance'):
+        yield st, v.py_isinstance(ex, st, c if isinstance(c, tuple)
+                                  else (c,))
+        return
     hook = ex.contracts.isinstance_hook
     if hook:
         r = hook(ex, st, v, c, line)
@@ -1151,8 +1171,7 @@ def dict_method(ex, st, fi, d, name, args, kw, line):
         g = GuardedState(st, present)
         v = ex.dict_get(d, k, g, line, check=False)
         mv = merge_pair(ex, present, v, dflt, st)
-        if mv is NotImplemented and isinstance(dflt, TokList) and \
-                not dflt.segs:
+        if mv is NotImplemented and isinstance(dflt, TokList):
             # d.get(k, []): the stored list, or an empty one
             isn = False
             lv = v
@@ -1167,6 +1186,14 @@ def dict_method(ex, st, fi, d, name, args, kw, line):
                                          'get'))
                     else:
                         segs.append(Many(Ite(present, sg.ln, 0), sg.mk,
+                                         sg.fresh, sg.label, sg.indexed))
+                for sg in dflt.segs:
+                    if isinstance(sg, Single):
+                        segs.append(Many(Ite(present, 0, 1),
+                                         (lambda s1, o=sg.obj: o), False,
+                                         'dflt'))
+                    else:
+                        segs.append(Many(Ite(present, 0, sg.ln), sg.mk,
                                          sg.fresh, sg.label, sg.indexed))
                 res = TokList(segs)
                 mv = res if isn is False else OptVal(And(present, isn), res)
@@ -1327,6 +1354,15 @@ def _comp_list(ex, node, gen, st, fi, lst, line):
                 return v
             fresh = _elt_is_fresh(node.elt)
             out.append(Many(n, mk, fresh, 'comp@%d' % line))
+            # the element expression is evaluated lazily per instance; run
+            # it once on a generic element now so that its obligations
+            # (safety, callee requires) are always generated
+            g = st.clone()
+            g.assume(zint(sg.ln) > 0)
+            try:
+                mk(g)
+            except Unsupported:
+                raise
     res = TokList(out)
     # int results -> int list is not needed by the code base
     yield st, res
